@@ -43,7 +43,10 @@ def build_harness(config="asan", shared=False, main="harness.cpp", cxx="g++"):
     key = tree_hash([config, shared, main, cxx] + flags)
     d = os.path.join(CACHE, "harness", key)
     exe = os.path.join(d, "harness")
-    if os.path.exists(exe): return exe, None
+    if os.path.exists(exe):
+        try: os.utime(d, None)          # mark the build as in use (prune_cache goes by age)
+        except OSError: pass
+        return exe, None
     os.makedirs(os.path.join(CACHE, "harness"), exist_ok=True)
     # checks may run in parallel on a cold cache: one builder per key, the others wait for it
     import fcntl
@@ -102,11 +105,15 @@ def build_lean(targets=("Ezc3dVerif", "driver")):
 def driver_path():
     return os.path.join(LEAN, ".lake", "build", "bin", "driver")
 
-def prune_cache(keep=12):
+def prune_cache(keep=16, min_age_s=3600):
+    """old builds beyond the `keep` most recent ones are removed - but never one used in the last hour: checks may run in
+    parallel (C19 alone uses seven builds), and a build another check is still using must not disappear under it"""
     d = os.path.join(CACHE, "harness")
     if not os.path.isdir(d): return
     ents = sorted((os.path.getmtime(os.path.join(d, e)), e) for e in os.listdir(d) if os.path.isdir(os.path.join(d, e)))
-    for _, e in ents[:-keep]:
+    now = time.time()
+    for mt, e in ents[:-keep]:
+        if now - mt < min_age_s: continue
         shutil.rmtree(os.path.join(d, e), ignore_errors=True)
         try: os.remove(os.path.join(d, e + ".lock"))
         except OSError: pass
